@@ -182,7 +182,7 @@ theorem chooseQ_spec (w : W) (j : Job) (hint : Option Nat) (ex : List Nat) (d : 
   · rename_i hh
     have hh' : hintAvailable w.pool hint = false := by simpa using hh
     obtain ⟨s1, s2, s3, s4, s5, s6⟩ := popAvail_spec w.pool d.nodupW w.avail w.inQ d.nodupQ d.sub
-    refine ⟨⟨rfl, rfl, rfl, rfl, rfl, rfl, rfl, rfl, rfl, rfl, rfl, rfl⟩, s1, s2, ?_, s5, ?_, ?_⟩
+    refine ⟨⟨rfl, rfl, rfl, rfl, rfl, rfl, rfl, rfl, rfl, rfl, rfl, rfl, rfl⟩, s1, s2, ?_, s5, ?_, ?_⟩
     · intro p hp hne ha
       exact s4 p hp ha (d.d1 p hp hne ha)
     · intro hnone
@@ -348,7 +348,7 @@ theorem dropExpiredHead_samePool (fuel : Nat) (w : W) :
       · split
         · rename_i j' q hp
           have hl := popByPrio_length (show popByPrio w.cfg prioUp w.queue = some (j', q) from hp)
-          obtain ⟨h1, h2⟩ := ih { w with queue := q, env := (w.env.discard .ttlExpired j').reject j' }
+          obtain ⟨h1, h2⟩ := ih { w with queue := q, env := (w.env.discard w.handler .ttlExpired j').reject j' }
           exact ⟨⟨h1.cfg, h1.rl, h1.pool, h1.avail, h1.inQ⟩, by simp only at h2; omega⟩
         · exact ⟨⟨rfl, rfl, rfl, rfl, rfl⟩, Nat.le_refl _⟩
       · exact ⟨⟨rfl, rfl, rfl, rfl, rfl⟩, Nat.le_refl _⟩
@@ -781,7 +781,7 @@ theorem dinv_growOne (w : W) (wid : Nat) (d : DInv [] w) : DInv [] (w.growOne wi
     · exact d1
   · rename_i hg
     dsimp only
-    have d0 := dinv_append_new w { wid := wid, actor := w.nextAid, disc := w.workerDiscard w.disc } (w.nextAid + 1)
+    have d0 := dinv_append_new w { wid := wid, actor := w.nextAid, disc := w.workerDiscard w.disc, handler := w.handler } (w.nextAid + 1)
       (w.env.spawn wid w.nextAid) (w.byActor ++ [(w.nextAid, wid)]) d hg
     have := availChange_true_dinv _ wid [wid] d0
     rw [filter_self_nil] at this
@@ -887,6 +887,17 @@ theorem qd_map_disc (w w1 : W) (dsc : Option (Nat × Mode)) (h : QD w) (h1 : w1.
     obtain ⟨y, hy, rfl⟩ := List.mem_map.mp hx
     exact h.q (by rw [← h6]; exact hq) y hy (by simp)
 
+theorem qd_setHandler (w : W) (hd : Option Nat) (h : QD w) : QD (w.setHandler hd) := by
+  refine ⟨⟨h.d.cfg, h.d.rl, ?_, h.d.nodupQ, h.d.sub, ?_⟩, ?_⟩
+  · show NodupW (w.pool.map _)
+    unfold NodupW; rw [List.map_map]; exact h.d.nodupW
+  · intro x hx _ ha
+    obtain ⟨y, hy, rfl⟩ := List.mem_map.mp hx
+    exact h.d.d1 y hy (by simp) ha
+  · intro hq x hx _
+    obtain ⟨y, hy, rfl⟩ := List.mem_map.mp hx
+    exact h.q hq y hy (by simp)
+
 theorem qd_updateSettings (w : W) (d : Option (Option (Nat × Mode))) (n : Option Nat) (h : QD w) :
     QD (w.updateSettings d n) := by
   unfold W.updateSettings
@@ -969,6 +980,7 @@ theorem qd_handleMsg (w : W) (m : FMsg) (h : QD w) : QD (w.handleMsg m) := by
   | finished who key => exact qd_workerFinishedJob w who key h
   | adjust n => exact qd_resizePool w n h
   | updateSettings d n => exact qd_updateSettings w d n h
+  | setHandler hd => exact qd_setHandler w hd h
   | drainRequests => exact h.of_fields rfl rfl rfl rfl rfl rfl
   | calculate =>
     show QD (if w.cfg.hasCC && w.armed then { w with armed := false, blocked := true } else w.calcRest)
@@ -1088,6 +1100,7 @@ theorem qd_applyOp (w : W) (op : Op) (h : QD w) : QD (w.applyOp op) := by
       | none => exact h.of_fields rfl rfl rfl rfl rfl rfl
       | some n => exact h.of_fields rfl rfl rfl rfl rfl rfl
   | drain => exact qd_send _ _ (h.of_fields rfl rfl rfl rfl rfl rfl)
+  | setHandler hd => exact qd_send _ _ (h.of_fields rfl rfl rfl rfl rfl rfl)
   | advance => exact h
   | block => exact h.of_fields rfl rfl rfl rfl rfl rfl
   | release n =>
@@ -1146,7 +1159,8 @@ theorem qd_init (c : CaseCfg) (hr : c.cfg.router = .q) (hrl : c.rl = none) : QD 
           let lc : LeakyBucket.Cfg := ⟨r.1, r.2.1, r.2.2.1, 10 ^ 40⟩
           (lc, LeakyBucket.new lc (some r.2.2.2) 0),
        queue := [], disc := c.disc, drain := .notDraining,
-       env := { actors := [], log := [], now := 0, hasHandler := c.cfg.hasHandler, sup := [] },
+       handler := if c.cfg.hasHandler then some 0 else none,
+       env := { actors := [], log := [], now := 0, sup := [] },
        nextAid := 0, stopSignal := false, stopped := false, inbox := [], blocked := false, armed := false,
        nextCalc := CALCULATE_FREQUENCY, answers := [], lastWq := none } : W) c.n
     ⟨hr, by simp [hrl], List.nodup_nil, List.nodup_nil, fun x hx => absurd hx List.not_mem_nil,
